@@ -3,7 +3,7 @@
   `isFieldNameValue`, `isRedactableFieldPatternInArray`, `isInSearchStage`, `augmentOp`.  Separate from Basic / Path / Scalar so
   that a change of one of these functions leaves the leaf theorems checking.
 -/
-import Anonymongo.Props.Src.Basic
+import Anonymongo.Props.Src.Base
 namespace Anonymongo.Src
 open Anonymongo Anonymongo.Go
 
